@@ -87,7 +87,7 @@ CORE = {
                     {"acts": ["connect", "disconnect", "ann"], "tiny": ["ann"], "maxlen": 4},
                     {"acts": ["ann", "lsub", "lbind", "sub", "bind"], "tiny": ["ann", "sub", "bind"], "rich": ["ann"], "maxlen": 4, "prefix": "PrefixP1"},
                     {"acts": ["lsub", "lbind", "sub", "bind", "entrem", "entadd"], "tiny": ["sub", "bind"], "rich": ["entrem", "entadd"], "maxlen": 4, "prefix": "PrefixP1P2"}],
-            "sim": [{"acts": DISC + ["ann", "sub", "bind", "lsub", "lbind", "entrem", "entadd"], "rich": ["ann", "entrem"], "maxlen": 30, "num": 1500}],
+            "sim": [{"acts": DISC + ["ann", "sub", "bind", "lsub", "lbind", "entrem", "entadd"], "rich": ["entrem", "entadd"], "tiny": ["sub", "bind"], "maxlen": 30, "num": 600}],
             "cap": 400000,
         },
     },
@@ -158,6 +158,9 @@ CORE = {
                     {"acts": ["sub", "unsub", "listsubs"], "tiny": ["sub", "unsub"], "maxlen": 4, "prefix": "PrefixP1", "view": None},
                     {"acts": ["sub", "unsub", "setdata", "bind", "write"], "maxlen": 3, "prefix": "PrefixP1P2"}],
             "sim": [{"acts": DISC + ["sub", "unsub", "listsubs", "entrem", "entadd", "setdata", "bind", "write"], "rich": ["unsub", "listsubs"], "maxlen": 20, "num": 150}],
+            # fault at the SHIP boundary: one of the two peers is mute (sends to it fail); the other one's notifications must not depend on it
+            "faults": [{"acts": ["sub", "setdata"], "tiny": ["sub"], "maxlen": 3, "prefix": "PrefixM1P2", "peers": ["m1", "p2"], "view": None},
+                       {"acts": ["sub", "setdata"], "tiny": ["sub"], "maxlen": 3, "prefix": "PrefixP1M2", "peers": ["p1", "m2"], "view": None}],
             "cap": 40000,
         },
         "thorough": {
@@ -167,6 +170,9 @@ CORE = {
                     {"acts": ["sub", "unsub", "listsubs"], "rich": ["sub", "unsub"], "maxlen": 3, "prefix": "PrefixP1P2"},
                     {"acts": ["sub", "unsub", "bind", "write", "setdata"], "maxlen": 4, "prefix": "PrefixP1P2"}],
             "sim": [{"acts": DISC + ["sub", "unsub", "listsubs", "entrem", "entadd", "setdata", "bind", "write"], "rich": ["unsub", "listsubs"], "maxlen": 30, "num": 3000}],
+            "faults": [{"acts": ["sub", "unsub", "setdata", "bind", "write"], "tiny": ["sub", "unsub", "bind"], "maxlen": 4, "prefix": "PrefixM1P2", "peers": ["m1", "p2"], "cap": 60000},
+                       {"acts": ["sub", "unsub", "setdata", "bind", "write"], "tiny": ["sub", "unsub", "bind"], "maxlen": 4, "prefix": "PrefixP1M2", "peers": ["p1", "m2"], "cap": 60000},
+                       {"acts": ["sub", "setdata"], "tiny": ["sub"], "maxlen": 4, "prefix": "PrefixM1P2", "peers": ["m1", "p2"], "view": None, "cap": 60000}],
             "cap": 400000,
         },
     },
@@ -184,7 +190,9 @@ CORE = {
             "mc": [{"acts": DISC + ["sub", "bind", "lsub", "lbind", "entrem", "entadd", "setdata"], "maxlen": 7}],
             "gen": [{"acts": ["sub", "bind", "lsub", "lbind", "disconnect", "entrem", "setdata", "write", "listsubs", "listbinds"], "maxlen": 3, "prefix": "PrefixP1P2"},
                     {"acts": DISC + ["sub", "bind", "lsub", "entrem", "entadd"], "rich": ["disconnect", "entrem", "entadd"], "maxlen": 4, "prefix": "PrefixP1"},
-                    {"acts": ["sub", "bind", "disconnect", "entrem"], "maxlen": 3, "prefix": "PrefixP1P2", "ghost": 2}],
+                    {"acts": ["sub", "bind", "disconnect", "entrem"], "maxlen": 3, "prefix": "PrefixP1P2", "ghost": 2},
+                    # nested entity [1,1] announced and removed below [1] with registry entries in place
+                    {"acts": ["ann", "bind", "sub", "lsub"], "tiny": ["ann", "bind", "sub"], "maxlen": 3, "prefix": "PrefixP1"}],
             "sim": [{"acts": DISC + ["sub", "unsub", "bind", "unbind", "lsub", "lbind", "lunsub", "lunbind", "entrem", "entadd", "setdata", "write", "listsubs", "listbinds"],
                      "rich": ["disconnect", "entrem", "entadd", "lsub", "lbind", "lunsub", "lunbind"], "maxlen": 25, "num": 200}],
             "cap": 40000,
@@ -193,7 +201,8 @@ CORE = {
             "mc": [{"acts": DISC + ["sub", "bind", "lsub", "lbind", "entrem", "entadd", "setdata"], "maxlen": 9},
                    {"peers": ["p1", "p2", "p3"], "acts": DISC + ["sub", "bind", "lsub", "entrem"], "maxlen": 9}],
             "gen": [{"acts": ["sub", "bind", "lsub", "lbind", "disconnect", "entrem", "entadd", "setdata", "write", "listsubs", "listbinds"], "maxlen": 5, "prefix": "PrefixP1P2"},
-                    {"acts": DISC + ["sub", "bind", "lsub", "entrem", "entadd"], "rich": ["disconnect", "entrem", "entadd"], "maxlen": 6, "prefix": "PrefixP1"}],
+                    {"acts": DISC + ["sub", "bind", "lsub", "entrem", "entadd"], "rich": ["disconnect", "entrem", "entadd"], "maxlen": 6, "prefix": "PrefixP1"},
+                    {"acts": ["ann", "bind", "sub", "lsub", "lbind"], "tiny": ["ann", "bind", "sub"], "maxlen": 4, "prefix": "PrefixP1P2"}],
             "sim": [{"acts": DISC + ["sub", "unsub", "bind", "unbind", "lsub", "lbind", "lunsub", "lunbind", "entrem", "entadd", "setdata", "write", "listsubs", "listbinds"],
                      "rich": ["disconnect", "entrem", "entadd", "lsub", "lbind", "lunsub", "lunbind"], "maxlen": 40, "num": 4000}],
             "cap": 400000,
